@@ -24,7 +24,7 @@ edzed = seams.install()
 
 PROP = 'C07'
 LEVEL = 'exploration'
-RUNS = {'quick': 2500, 'thorough': 120000}
+RUNS = {'quick': 10000, 'thorough': 300000}
 CHUNK = 40
 CHUNK_TIMEOUT = 600
 RULE = ("one run = 1-5 TimeDate/TimeSpan blocks (local and/or UTC scheduler) with random "
